@@ -6,20 +6,24 @@ rows = []
 for f in sorted(glob.glob(V + "/sweeps/C*.tsv")):
     pid = os.path.basename(f)[:-4]
     for line in open(f):
-        kind, name, verdict, key = (line.rstrip("\n").split("\t") + ["", "", "", ""])[:4]
+        kind, name, verdict, key, by = (line.rstrip("\n").split("\t") + ["", "", "", "", ""])[:5]
         needs = ""
         if kind == "seed":
             m = os.path.join(V, "seeded", name, "meta.json")
             if os.path.exists(m):
                 needs = json.load(open(m)).get("needs_to_manifest", "")
-        rows.append((pid, kind, name, verdict, key.replace("key=", ""), needs))
+        rows.append((pid, kind, name, verdict, key.replace("key=", ""), needs, by))
 out = ["| property | kind | change | result of `check <property> --mutant` | first violation key | needs, to manifest |", "|---|---|---|---|---|---|"]
 tot = {}
-for pid, kind, name, verdict, key, needs in rows:
+other = 0
+for pid, kind, name, verdict, key, needs, by in rows:
     res = {"VIOLATION": "caught", "HELD": "not caught", "INCONCLUSIVE": "inconclusive"}.get(verdict, verdict)
+    if by:
+        res = "not by %s; caught by `check %s`" % (pid, by)
+        other += 1
     out.append("| %s | %s | %s | %s | `%s` | %s |" % (pid, kind, name, res, key, needs))
     t = tot.setdefault(kind, [0, 0]); t[1] += 1; t[0] += verdict == "VIOLATION"
-summary = "; ".join("%s: %d of %d caught by the property's own check" % (k, v[0], v[1]) for k, v in sorted(tot.items()))
+summary = "; ".join("%s: %d of %d caught by the property's own check" % (k, v[0], v[1]) for k, v in sorted(tot.items())) + "; %d further seeds caught by the check of the property whose workload they fall under" % other
 block = "<!-- BEGIN SWEEP -->\n" + summary + "\n\n" + "\n".join(out) + "\n<!-- END SWEEP -->"
 p = V + "/DESIGN.md"
 s = open(p).read()
